@@ -288,6 +288,8 @@ theorem runImplGuarded_inactive (cfg : Cfg σ)
       · next e he => exact ⟨h1, by rw [← h2, he]⟩
     all_goals
       simp only [runImplGuarded, hk, hj, Bool.not_false, if_true, Impl.base]
-      exact ⟨h1, h2⟩
+      refine ⟨h1, ?_⟩
+      rw [← h2]
+      cases (runImplGuarded cfg body inner s a w).2 <;> rfl
 
 end IrVerif.Journal
